@@ -178,7 +178,7 @@ def random_history(seed, length=60, faults=False, nslots=5):
                 elif c == 1:
                     flc = r.choice([1, 2])
                 else:
-                    nfrag = r.choice([-1, 0, max(k - 1, 0), len(idx)])
+                    nfrag = r.choice([-1, 0, min(max(k - 1, 0), len(idx)), len(idx)])     # never more than the list holds (caller UB)
             if be == BE_NULL and missing & set(range(k)):
                 continue
             if isdec:
